@@ -220,6 +220,9 @@ class UdpInverterProtocol(InverterProtocol, asyncio.DatagramProtocol):
         else:
             logger.debug("Sending: %s", self.command)
         self._transport.sendto(payload)
+        if self._timer:
+            # left armed by a response fragment received while no request was pending
+            self._timer.cancel()
         self._timer = asyncio.get_running_loop().call_later(self.timeout, self._timeout_mechanism)
 
     def _timeout_mechanism(self) -> None:
@@ -380,6 +383,9 @@ class TcpInverterProtocol(InverterProtocol, asyncio.Protocol):
         else:
             logger.debug("Sending: %s", self.command)
         self._transport.write(payload)
+        if self._timer:
+            # left armed by a response fragment received while no request was pending
+            self._timer.cancel()
         self._timer = asyncio.get_running_loop().call_later(self.timeout, self._timeout_mechanism)
 
     def _timeout_mechanism(self) -> None:
